@@ -55,6 +55,17 @@ MUTANTS = [
     ('m35-unbounded-send-to-closed-peer-reports-ok', 'C15', 'transports', 'tarpc/src/transport/channel.rs', r'(fn start_send\(self: Pin<&mut Self>, item: SinkItem\) -> Result<\(\), Self::Error> \{\n)(\s*self\.tx\n\s*\.send\(item\))', r'\1        if self.tx.is_closed() {\n            return Ok(());\n        }\n\2'),
     ('m36-bounded-flush-not-forwarded', 'C15', 'transports', 'tarpc/src/transport/channel.rs', r'self\.project\(\)\n\s*\.tx\n\s*\.poll_flush\(cx\)\n\s*\.map_err\(\|e\| ChannelError::Send\(Box::new\(e\)\)\)', 'Poll::Ready(Ok(()))'),
     ('m37-serde-end-of-stream-reported-as-pending', 'C15', 'transports', 'tarpc/src/serde_transport.rs', r'(fn poll_next\(self: Pin<&mut Self>, cx: &mut Context<\'_>\) -> Poll<Option<io::Result<Item>>> \{\n)(\s*)self\.project\(\)\n\s*\.inner\n\s*\.poll_next\(cx\)\n\s*\.map_err\(\|e\| io::Error::new\(io::ErrorKind::Other, e\)\)', r'\1\2match self.project().inner.poll_next(cx).map_err(|e| io::Error::new(io::ErrorKind::Other, e)) {\n\2    Poll::Ready(None) => Poll::Pending,\n\2    other => other,\n\2}'),
+    ('m40-complete-all-keeps-timers', 'C11', 'client', 'tarpc/src/client/in_flight_requests.rs', r'self\.deadlines\.clear\(\);', ''),
+    ('m41-complete-all-skips-closed-receivers', 'C09', 'client', 'tarpc/src/client/in_flight_requests.rs', r'let _ = request_data\.response_completion\.send\(result\(\)\);', 'if !request_data.response_completion.is_closed() { let _ = request_data.response_completion.send(result()); }'),
+    ('m42-shutdown-delivers-another-error', 'C09', 'client', 'tarpc/src/client.rs', r'complete_all_requests\(\|\| Err\(RpcError::Channel\(e\.clone\(\)\)\)\)', 'complete_all_requests(|| Err(RpcError::Shutdown))'),
+    ('m43-table-drop-aborts-nothing', 'C09', 'server', 'tarpc/src/server/in_flight_requests.rs', r'\.values\(\)\n\s*\.for_each\(\|request_data\| request_data\.abort_handle\.abort\(\)\)', '.values().for_each(|request_data| drop(request_data))'),
+    ('m44-tracked-channel-flush-polls-ready', 'C13', 'channels', 'tarpc/src/server/limits/channels_per_key.rs', r'self\.inner_pin_mut\(\)\.poll_flush\(cx\)', 'self.inner_pin_mut().poll_ready(cx)'),
+    ('m45-tracked-channel-reports-nothing-in-flight', 'C13', 'channels', 'tarpc/src/server/limits/channels_per_key.rs', r'self\.inner\.in_flight_requests\(\)', '0'),
+    ('m46-retry-attempts-numbered-from-zero', 'C20', 'retry', 'tarpc/src/client/stub/retry.rs', r'for i in 1\.\.', 'for i in 0..'),
+    ('m47-retry-policy-inverted', 'C20', 'retry', 'tarpc/src/client/stub/retry.rs', r'if \(self\.should_retry\)\(&result, i\)', 'if !(self.should_retry)(&result, i)'),
+    ('m48-cycle-off-by-one', 'C20', 'lb_fairness', 'tarpc/src/client/stub/load_balance.rs', r'&self\.elements\[next % self\.elements\.len\(\)\]', '&self.elements[(next + 1) % self.elements.len()]'),
+    ('m49-consistent-hash-uses-high-bits', 'C20', 'lb_fairness', 'tarpc/src/client/stub/load_balance.rs', r'self\.hash_request\(&request\) % self\.stubs_len', '(self.hash_request(&request) >> 32) % self.stubs_len'),
+    ('m50-round-robin-skips-a-backend', 'C20', 'lb_fairness', 'tarpc/src/client/stub/load_balance.rs', r'let next = self\.stubs\.next\(\);', 'let _skip = self.stubs.next(); let next = self.stubs.next();'),
     ('m32-new-child-loses-sampling', 'C18', 'trace_ctx', 'tarpc/src/trace.rs', r'sampling_decision: self\.sampling_decision,\n(\s*)\}\n(\s*)\}\n\}\n\nimpl TraceId', r'sampling_decision: SamplingDecision::Unsampled,\n\1}\n\2}\n}\n\nimpl TraceId'),
 ]
 
